@@ -42,7 +42,7 @@ def premise_variants(arg):
     return [Argument(arg.conclusion, v) for v in seen]
 
 
-def fn(drv, logic, argstr, seed, symbolic=True, fixed=None):
+def fn(drv, logic, argstr, seed, symbolic=True, fixed=None, options_only=False):
     from pytableaux.lang import Argument
     arg0 = Argument(argstr)
     variants = premise_variants(arg0)
@@ -51,8 +51,9 @@ def fn(drv, logic, argstr, seed, symbolic=True, fixed=None):
     else:
         g = drv.bool('is_group_optim')
         r = drv.bool('is_rank_optim')
-        loop = drv.pick(2, 'step_loop')
-        vi = drv.pick(len(variants), 'premises')
+        # further seeds vary the options only (call mode and premise variant as given)
+        loop = 0 if options_only else drv.pick(2, 'step_loop')
+        vi = 0 if options_only else drv.pick(len(variants), 'premises')
     tab = prover.build(logic, variants[vi], seed, step_loop=bool(loop), is_group_optim=g, is_rank_optim=r,
                        max_steps=400)
     return dict(cls=prover.outcome(tab), steps=len(tab.history), loop=loop, variant=vi,
@@ -71,11 +72,11 @@ def unit(arg_):
         rules = set()
         for seed in seeds:
             ex = Explorer([], max_paths=200, max_seconds=300)
-            paths = ex.run(lambda: fn(drv, name, argstr, seed))
+            paths = ex.run(lambda: fn(drv, name, argstr, seed, options_only=(seed != seeds[0])))
             out['paths'] += len(paths)
             out['decisions'] += ex.decisions_total + ex.picks_total
             for p in paths:
-                cfg = dict(seed=seed, picks=list(p.picks))
+                cfg = dict(seed=seed, picks=list(p.picks) if seed == seeds[0] else [0, 0])
                 for c in p.pc:
                     if z3.is_not(c) and z3.is_const(c.arg(0)) and c.arg(0).sort() == z3.BoolSort():
                         cfg[str(c.arg(0))] = False
@@ -149,7 +150,8 @@ def run(ctx):
         bounds=dict(arguments='12 per logic by seed + 9 fixed' if ctx.quick else '80 per logic + 6 fixed + 20 random',
                     options='both flags symbolic', call_mode='build | step loop (symbolic pick)',
                     premises='original, reversed, rotated, first premise duplicated front/back (symbolic pick)',
-                    tie_break_seeds=2 if ctx.quick else 6, max_steps=400),
+                    tie_break_seeds=2 if ctx.quick else 6, max_steps=400,
+                    note='call mode and premise variants are explored on the first seed; further seeds vary the options'),
         functions_executed=['Tableau.build/step', 'Rule._extend_targets/_select_best_target',
                             'Tableau._get_group_application/_select_optim_group_application',
                             'score_candidate/group_score of all rules', 'FilterNodeCache.node_targets'],
